@@ -337,9 +337,11 @@ class CurveOfGrowth(ProfileBase):
         profile = self.profile
         diff = np.diff(profile) <= 0
         if np.any(diff):
-            idx = np.argmax(diff)  # first non-monotonic point
-            radius = radius[0:idx]
-            profile = profile[0:idx]
+            # index of the last point of the monotonically increasing
+            # region (the point after it is the first non-monotonic one)
+            idx = np.argmax(diff)
+            radius = radius[0:idx + 1]
+            profile = profile[0:idx + 1]
 
         if len(radius) < 2:
             raise ValueError('The curve-of-growth profile is not '
